@@ -217,6 +217,22 @@ CLAIMS = {
         technique="static analysis: abstract evaluation of constraint construction with strict index tracking and answer-key typestate (ast)",
         ref="DESIGN.md §3 C11",
     ),
+    "C04": dict(
+        text=(
+            "Decides C04 relative to a reference schema: active_vertices_connected (acyclic off/on) is evaluated abstractly on eight "
+            "small graphs (single vertex, edge, path, triangle, star with isolated vertex, square, two components, parallel edges); "
+            "the constraint trees it posts are canonicalised (commutativity, comparison direction, negation, count/threshold normal "
+            "forms; rank domains compared by sufficiency >= n) and must equal the reference rank/root schema written in the checker "
+            "(each active vertex has >=1 [==1 when acyclic, with distinct neighbour ranks] active strictly-lower neighbour or is "
+            "the root; at most one root). A deviation is triaged by enumerating the projection onto is_active on the same graphs: "
+            "a pattern wrongly admitted/rejected is reported as VIOLATION with that witness, otherwise the check is undecided "
+            "(exit 2). Also: (ALG-6) _grid_graph and the BoolArray2D form = row-major orthogonal grid graph for seven shapes; "
+            "(CFG-4) native operator exactly when configured, never when acyclic; (SGR-6) native operand layout and length guard."
+        ),
+        note="Trusted: the reference schema's exactness (argued in DESIGN.md C04) and uniformity of the encoding in the graph; the abstract evaluator; the external solver for the native operator. The projection enumeration is used only to triage a deviation, never to pass.",
+        technique="static analysis: abstract evaluation + canonical-form comparison of the generated constraint schema against a reference schema (ast)",
+        ref="DESIGN.md §3 C04",
+    ),
 }
 
 NOT_APPLICABLE = {
